@@ -55,6 +55,8 @@ apply cache       self.apply_table.borrow().hash(&i)               -> a token th
                   self.apply_table.borrow_mut().insert(i, r, hash) -> s := Bdd.cacheInsert C s i r (both adapters are tied: cacheInsertAll/Lru)
                   (in an adapter) self.table.get(&k [,hash])       -> C.get s k ;  self.table.insert(k, v [,hash]) -> s := C.insert s k v
 conditioning memo cache.get(&k) / cache.insert(k, v) / HashMap::new() -> Memo.get m k / m := (k, v) :: m / []
+overrides         a default method of `BottomUpBuilder` translated from builder/mod.rs (`or`, `compose`) is first looked up in the BDD
+                  impl block of builder/bdd/builder.rs; an override there is translated instead (status says so)
 sibling functions self.condition_essential / self.ite (checked to forward to ite_helper) / self.cond_with_alloc /
                   self.cond_helper / self.condition / self.and / or / iff / xor / exists / negate / var / smooth_helper
                                                                    -> the generated Gen.BddCore definitions
@@ -2225,6 +2227,21 @@ def d_state_op(rel, rust, leanname, header, tys):
             % (leanname, binders, indent(body)))
 
 
+_NOTE = [None]
+
+
+def d_default_op(rust, leanname, tys):
+    """a default method of `BottomUpBuilder` (src/builder/mod.rs): an override of the same name in the BDD impl block
+    `impl BottomUpBuilder<BddPtr> for T where T: BddBuilder` (src/builder/bdd/builder.rs) takes precedence"""
+    over = [f for f in find_fns(file_toks(BUILDER), rust) if re.search(r"BottomUpBuilder", f["header"])]
+    if len(over) > 1:
+        raise Untranslatable("several `fn %s` in the BottomUpBuilder impl of builder/bdd/builder.rs" % rust)
+    if over:
+        _NOTE[0] = "override in builder/bdd/builder.rs"
+        return d_state_op(BUILDER, rust, leanname, r"BottomUpBuilder", tys)
+    return d_state_op(BMOD, rust, leanname, r"BottomUpBuilder", tys)
+
+
 def d_lst(rust, leanname):
     f = pick_fn(BUILDER, rust, header=r"trait BddBuilder")
     (pf,) = expect_params(f, 1)
@@ -2314,9 +2331,9 @@ FUNCTIONS = [
     ("bAnd", "Bdd.bAnd", "BottomUpBuilder::and", lambda: d_state_op(BUILDER, "and", "bAnd", r"BottomUpBuilder", ["ptr", "ptr"])),
     ("bIff", "Bdd.bIff", "BottomUpBuilder::iff", lambda: d_state_op(BUILDER, "iff", "bIff", r"BottomUpBuilder", ["ptr", "ptr"])),
     ("bXor", "Bdd.bXor", "BottomUpBuilder::xor", lambda: d_state_op(BUILDER, "xor", "bXor", r"BottomUpBuilder", ["ptr", "ptr"])),
-    ("bOr", "Bdd.bOr", "BottomUpBuilder::or (default)", lambda: d_state_op(BMOD, "or", "bOr", r"BottomUpBuilder", ["ptr", "ptr"])),
+    ("bOr", "Bdd.bOr", "BottomUpBuilder::or (default)", lambda: d_default_op("or", "bOr", ["ptr", "ptr"])),
     ("bExists", "Bdd.bExists", "BottomUpBuilder::exists", lambda: d_state_op(BUILDER, "exists", "bExists", r"BottomUpBuilder", ["ptr", "nat"])),
-    ("bCompose", "Bdd.bCompose", "BottomUpBuilder::compose (default)", lambda: d_state_op(BMOD, "compose", "bCompose", r"BottomUpBuilder", ["ptr", "nat", "ptr"])),
+    ("bCompose", "Bdd.bCompose", "BottomUpBuilder::compose (default)", lambda: d_default_op("compose", "bCompose", ["ptr", "nat", "ptr"])),
     ("bAndLst", "fun (C : Bdd.CacheImpl) (lvl : Nat → Nat) (fuel : Nat) (s : C.σ) (l : List Bdd.Ptr) => Bdd.bAndLst C lvl fuel s Bdd.Ptr.tru l",
      "BddBuilder::and_lst", lambda: d_lst("and_lst", "bAndLst")),
     ("bOrLst", "fun (C : Bdd.CacheImpl) (lvl : Nat → Nat) (fuel : Nat) (s : C.σ) (l : List Bdd.Ptr) => Bdd.bOrLst C lvl fuel s Bdd.Ptr.fls l",
@@ -2442,6 +2459,7 @@ def main():
     for name, model, rust, driver in FUNCTIONS:
         try:
             del _TRS[:]
+            _NOTE[0] = None
             text = driver()
             if PLACEHOLDER in text:
                 raise Untranslatable("internal: unresolved hole")
@@ -2454,7 +2472,8 @@ def main():
                 raise Differs(", ".join(("the builder field `%s`" % x_) if "(" not in x_ else ("`%s`" % x_) for x_ in newst)
                               + " is read/written by the source; the model definition has no state or parameter for it")
             parts.append([name, model, rust, "/-- translated from `%s` -/\n%s\n" % (rust, text)])
-            status[rust] = "translated (-> Gen.BddCore.%s, tied to %s)" % (name, model if len(model) < 40 else "its model expression")
+            status[rust] = "translated (%s-> Gen.BddCore.%s, tied to %s)" % (
+                (_NOTE[0] + "; ") if _NOTE[0] else "", name, model if len(model) < 40 else "its model expression")
         except Differs as e:
             why = ("%s" % e).replace("\n", " ")
             parts.append([name, model, rust, fallback_text(name, model, rust, "DIFFERS (new state): " + why)])
